@@ -157,9 +157,6 @@ package shell_operator
 //@   ghostset shell_operator.nUpdateMeta := shell_operator.nUpdateMeta + 1
 //@   ghostset shell_operator.lastMeta := arg0
 //@ package github.com/flant/shell-operator/pkg/hook
-//@ trusted func (*Hook).RateLimitWait
-//@   modifies shell_operator.lastWaitHook, shell_operator.lastWaitErr
-//@   ensures shell_operator.lastWaitHook == h && shell_operator.lastWaitErr == result
 //@ trusted func (*Manager).GetHook
 //@   modifies nothing
 //@   ensures result != nil && result.Config != nil && result.HookController != nil
